@@ -3,13 +3,25 @@ NOTES = ("Static analysis only: every check re-extracts a typed AST + CFG of the
          "executed. Exit 0 = all claimed clauses hold, 1 = VIOLATION lines, 2 = analysis broken / undecidable "
          "(anchor vanished, construct not understood). Clauses that are not decided are listed per property in level_note.")
 
+ALLP = ['C%02d' % i for i in range(1, 21)]
 ENGINES = [
-    {"name": "engine B (synchronisation skeleton)", "path": "engine/sync.py", "serves_properties": ["C10", "C11", "C06"],
-     "kind_free_text": "lock-state dataflow over the CFG, wait/notify extraction, predicate polarity tables"},
-    {"name": "tlxir", "path": "tools/tlxir.cc", "serves_properties": ["C15"],
-     "kind_free_text": "clang LibTooling extractor: typed AST with resolved callees, template instantiations, clang CFG -> JSON"},
-    {"name": "engine A (order abstraction / decision tables)", "path": "engine/dtable.py", "serves_properties": ["C15", "C09", "C05", "C01", "C02"],
-     "kind_free_text": "comparator-network extraction + zero-one principle; decision tables over comparison atoms"},
+    {"name": "tlxir", "path": "tools/tlxir.cc", "serves_properties": ALLP,
+     "kind_free_text": "clang 14 LibTooling extractor: typed AST with resolved callees, template instantiations, constant values, clang CFG -> JSON (no tlx code is run)"},
+    {"name": "cfg / cfgbuild", "path": "engine/cfg.py", "serves_properties": ["C02", "C03", "C04", "C05", "C06", "C07", "C08", "C10", "C13", "C16", "C17", "C20"],
+     "kind_free_text": "CFG positions, dominance, post-dominance, path search avoiding positions / blocked edges; CFG rebuilt from a rewritten statement tree"},
+    {"name": "dtable", "path": "engine/dtable.py", "serves_properties": ["C01", "C02", "C04", "C05", "C08", "C09", "C13", "C17"],
+     "kind_free_text": "decision tables: a loop-free fragment explored under every consistent valuation of its boolean atoms; the 'cannot decide' exception used by all rules"},
+    {"name": "order", "path": "engine/order.py", "serves_properties": ["C05"], "kind_free_text": "order automata of the goto-encoded merges, explored to fixpoint"},
+    {"name": "sync", "path": "engine/sync.py", "serves_properties": ["C10", "C11"], "kind_free_text": "lock-state dataflow over the CFG, wait/notify extraction"},
+    {"name": "mustfact / linear", "path": "engine/mustfact.py", "serves_properties": ["C04", "C08", "C16"], "kind_free_text": "must-fact dataflow; guards as canonical linear inequalities"},
+    {"name": "intervals", "path": "engine/intervals.py", "serves_properties": ["C03", "C04"], "kind_free_text": "forward interval analysis with branch refinement and threshold widening"},
+    {"name": "absexec", "path": "engine/absexec.py", "serves_properties": ["C01", "C02"], "kind_free_text": "abstract execution of node-array code: small concrete integers, opaque labels for elements, every access bounds-checked"},
+    {"name": "skel", "path": "engine/skel.py", "serves_properties": ["C05", "C06", "C07", "C09", "C10", "C11", "C14", "C16", "C20"],
+     "kind_free_text": "integer-skeleton evaluator: the AST fragment is interpreted on a small grid of the integers that steer it, data are labels, core calls are observed events"},
+    {"name": "normalize", "path": "engine/normalize.py", "serves_properties": ALLP,
+     "kind_free_text": "normalisation of novelties against data/known.json (helpers that did not exist are inlined, new never-written locals seen through where provably stable)"},
+    {"name": "rule-local evaluators", "path": "rules/", "serves_properties": ["C11", "C12", "C13", "C14", "C15", "C16", "C18", "C19", "C20"],
+     "kind_free_text": "small-scope abstract evaluation of member functions' ASTs on finite domains chosen by the rule (see DESIGN.md 4.1): bounded evidence"},
 ]
 
 TRUST = "Trusted: clang 14 front end, tools/tlxir.cc, the Python engines and the frozen idiom tables in the rule file. "
